@@ -33,6 +33,7 @@ def expectEvent (d : Bytes) : Expect :=
         match readLeaf d l with
         | .exact v => (f1 ++ [(n, v)], f2 ++ [(n, v)], inv, mf)
         | .noValue vs => (f1 ++ [(n, vs.head?.getD .none_)], f2 ++ [(n, vs.getLast?.getD .none_)], inv, mf)
+        | .invalid [] => (f1, f2, inv, true)          -- malformed (a bool that is neither 0 nor 1, a date that is not digits)
         | .invalid zs => (f1 ++ [(n, zs.head?.getD .none_)], f2 ++ [(n, zs.getLast?.getD .none_)], true, mf)
         | .mustFail => (f1, f2, inv, true)) (([] : Fields), ([] : Fields), false, false)
       if mf then .error
@@ -94,6 +95,7 @@ def expectEntry (cfg : Cfg) (d : Bytes) : ExpectEntry :=
         match readLeaf d l with
         | .exact v => (f1 ++ [(n, v)], f2 ++ [(n, v)], inv, mf)
         | .noValue vs => (f1 ++ [(n, vs.head?.getD .none_)], f2 ++ [(n, vs.getLast?.getD .none_)], inv, mf)
+        | .invalid [] => (f1, f2, inv, true)          -- malformed (a bool that is neither 0 nor 1, a date that is not digits)
         | .invalid zs => (f1 ++ [(n, zs.head?.getD .none_)], f2 ++ [(n, zs.getLast?.getD .none_)], true, mf)
         | .mustFail => (f1, f2, inv, true)) (([] : Fields), ([] : Fields), false, false)
       if mf then .never
